@@ -120,7 +120,7 @@ def adjustEntries : PEntries → PEntries → List String → PEntries × List S
       match item with
       | .dict _ _ =>
         let (o, lv) := adjustTree cur item lvls
-        if o.crashed then (res, o.warnings, true, lv)
+        if o.crashed then (res.set k o.tree, o.warnings, true, lv)   -- the nested dict was mutated in place up to the crash
         else
           let (es, w, cr, lv') := adjustEntries (res.set k o.tree) rest lv
           (es, o.warnings ++ w, cr, lv')
@@ -247,8 +247,8 @@ def Sys.step (s : Sys) : SOp → Sys × SOut
   | .setPrms yaml =>
     let (y, n1) := yaml.deepcopy s.next
     let (o, _) := adjustTree s.global y []
-    if o.crashed then ({ s with next := n1 }, .crash "AttributeError")
-    else ({ (s.syncAll o.tree s.global.dictIds) with next := n1, global := o.tree }, .ok o.warnings)
+    ({ (s.syncAll o.tree s.global.dictIds) with next := n1, global := o.tree },
+     if o.crashed then .crash "AttributeError" else .ok o.warnings)
   | .reset none =>
     let (d, n1) := s.defaults.deepcopy s.next
     ({ s with next := n1, global := d }, .ok [])
